@@ -3,8 +3,41 @@
 #include "profiles.h"
 #include <unistd.h>
 #include <fcntl.h>
+#include <signal.h>
+#include <setjmp.h>
 
 using namespace sim;
+
+// In batch mode (never in replay mode) a fatal signal raised while a trace executes is turned
+// into a verdict for that run, so that one crashing run does not cost the rest of the batch.
+// All device state is rebuilt per run, so nothing corrupted survives. Sanitizer builds keep
+// their own handlers: there the process dies and the orchestrator triages the in-flight seed.
+static sigjmp_buf g_jmp;
+static volatile sig_atomic_t g_armed = 0, g_sig = 0;
+static void onFatal(int sig) {
+  if (g_armed) { g_sig = sig; g_armed = 0; siglongjmp(g_jmp, 1); }
+  signal(sig, SIG_DFL);
+  raise(sig);
+}
+static void installCrashRecovery() {
+#if !defined(__has_feature)
+#define __has_feature(x) 0
+#endif
+#if !__has_feature(address_sanitizer)
+  struct sigaction sa;
+  memset(&sa, 0, sizeof sa);
+  sa.sa_handler = onFatal;
+  sa.sa_flags = SA_NODEFER;
+  sigaction(SIGSEGV, &sa, nullptr);
+  sigaction(SIGBUS, &sa, nullptr);
+  sigaction(SIGFPE, &sa, nullptr);
+  sigaction(SIGILL, &sa, nullptr);
+#endif
+}
+static const char* sigName(int s) {
+  switch (s) { case SIGSEGV: return "SIGSEGV"; case SIGBUS: return "SIGBUS"; case SIGFPE: return "SIGFPE";
+    case SIGILL: return "SIGILL"; default: return "SIG?"; }
+}
 
 static bool readTraceFile(const char* path, Trace& tr) {
   FILE* f = strcmp(path, "-") == 0 ? stdin : fopen(path, "r");
@@ -39,7 +72,7 @@ static void printVerdict(const Verdict& v) {
   for (size_t i = 0; i < v.notes.size(); i++) printf("NOTE %s\n", v.notes[i].c_str());
 }
 
-static void printStats(const Coverage& cov, uint64_t runs, uint64_t nontrivial, uint64_t digest,
+static std::string statsLine(const Coverage& cov, uint64_t runs, uint64_t nontrivial, uint64_t digest,
     const std::vector<std::string>& samples) {
   std::string o = "STATS {";
   o += fmt("\"runs\":%llu,\"nontrivial\":%llu,\"digest\":\"%016llx\",\"counters\":{",
@@ -70,7 +103,22 @@ static void printStats(const Coverage& cov, uint64_t runs, uint64_t nontrivial, 
     o += "\"";
   }
   o += "]}";
-  puts(o.c_str());
+  return o;
+}
+static void printStats(const Coverage& cov, uint64_t runs, uint64_t nontrivial, uint64_t digest,
+    const std::vector<std::string>& samples) {
+  puts(statsLine(cov, runs, nontrivial, digest, samples).c_str());
+}
+// Snapshot of the coverage so far, so that a run that kills the process does not lose the batch.
+static void snapshotStats(const std::string& path, const Coverage& cov, uint64_t runs, uint64_t nontrivial,
+    uint64_t digest, const std::vector<std::string>& samples) {
+  std::string tmp = path + ".tmp";
+  FILE* f = fopen(tmp.c_str(), "w");
+  if (!f) return;
+  fputs(statsLine(cov, runs, nontrivial, digest, samples).c_str(), f);
+  fputc('\n', f);
+  fclose(f);
+  rename(tmp.c_str(), path.c_str());
 }
 
 int main(int argc, char** argv) {
@@ -110,18 +158,40 @@ int main(int argc, char** argv) {
     int pfd = open(argv[6], O_WRONLY | O_CREAT, 0644);
     Bitmap* bm = nullptr;
     Bitmap bitmap;
-    if (argc >= 8) { bm = &bitmap; bitmap.path = argv[7]; }
+    std::set<std::string> crashNoteOps;   // --crash-note-ops Q,QR: crashes inside these ops are counted, not reported
+    for (int a = 7; a < argc; a++) {
+      if (strcmp(argv[a], "--crash-note-ops") == 0 && a + 1 < argc) {
+        std::string l = argv[++a];
+        for (size_t p = 0; p < l.size();) { size_t q = l.find(',', p); if (q == std::string::npos) q = l.size(); crashNoteOps.insert(l.substr(p, q - p)); p = q + 1; }
+      } else if (strcmp(argv[a], "--bitmap") == 0 && a + 1 < argc) { bm = &bitmap; bitmap.path = argv[++a]; }
+    }
+    installCrashRecovery();
     Coverage cov;
     uint64_t runs = 0, nontrivial = 0, digest = 0;
     int reported = 0;
     std::vector<std::string> samples;
     for (uint64_t i = from; i < from + count; i++) {
       uint64_t seed = deriveSeed(verifSeed, profile, i);
+      if (runs % 250 == 0 && runs > 0) snapshotStats(std::string(argv[6]) + ".stats", cov, runs, nontrivial, digest, samples);
       if (pfd >= 0) { uint64_t rec[2] = { i, seed }; if (pwrite(pfd, rec, sizeof rec, 0) < 0) {} }
       Trace tr;
       if (!generate(profile, seed, tr)) { fprintf(stderr, "unknown profile\n"); return 2; }
       Verdict v; bool nt = false;
-      execute(tr, v, cov, nt, bm);
+      g_curOp = -1;
+      if (sigsetjmp(g_jmp, 1) == 0) {
+        g_armed = 1;
+        execute(tr, v, cov, nt, bm);
+        g_armed = 0;
+      } else {
+        int op = g_curOp;
+        std::string opWord = (op >= 0 && op < (int)tr.lines.size()) ? splitWs(tr.lines[op])[0] : "?";
+        if (crashNoteOps.count(opWord)) {
+          cov.count("note.crash_in_" + opWord);
+        } else {
+          v.fail(std::string("crash:") + sigName(g_sig), std::string("process received ") + sigName(g_sig)
+              + " while executing: " + ((op >= 0 && op < (int)tr.lines.size()) ? tr.lines[op] : "?"), op);
+        }
+      }
       runs++;
       if (nt) nontrivial++;
       // outcome digest: trace text + verdict, order-sensitive; used by the determinism self-test
